@@ -133,7 +133,7 @@ Print Assumptions C05_constructor.
 (* the derivation of seq.py:21-24, run on the regenerated CODES and COMPLEMENT, yields the regenerated COMPLEMENT_ALL and COMPLEMENT_TRANS *)
 Theorem C05_derived_tables : exists d, derive_all CODES COMPLEMENT = Some d /\
   (forall c, lookupB c d = lookupB c COMPLEMENT_ALL) /\
-  (forall c, lookupN (Byte.to_N c) (derive_trans d) = lookupN (Byte.to_N c) COMPLEMENT_TRANS) /\
+  (forall c, trans_with (derive_trans d) c = trans1 c) /\
   forallb (fun kv => N.ltb (fst kv) 256 && N.ltb (snd kv) 256) COMPLEMENT_TRANS = true.
 Proof. exact derived_tables. Qed.
 Print Assumptions C05_derived_tables.
